@@ -220,11 +220,24 @@ class Laws(object):
         interchangeable (same sums on the panel, same hash, same truth value)"""
         R, W = self.R, self.W
         base = dict(kw)
-        field = rng.choice(mon_rd.REL_FIELDS + mon_rd.ABS_FIELDS + ('weekday', 'leapdays'))
+        field = rng.choice(mon_rd.REL_FIELDS + mon_rd.ABS_FIELDS + ('weekday', 'leapdays', 'resplit', 'resplit'))
         other = dict(base)
+        if field == 'resplit':
+            # the same total of months split differently between years and months (mixed signs are legal normal forms)
+            y, m = base.get('years', 0), base.get('months', 0)
+            if isinstance(y, float) or isinstance(m, float):
+                return
+            s_ = rng.choice([1, -1])
+            if abs(m - 12 * s_) >= 12:
+                m = rng.choice([1, 5, 11]) * s_
+                base['months'] = m
+            other = dict(base, years=y + s_, months=m - 12 * s_)
+            field = 'years'
         alt = {'year': [1999, 2024], 'month': [2, 11], 'day': [1, 28], 'hour': [0, 13], 'minute': [0, 59], 'second': [11, 12],
                'microsecond': [0, 999999], 'weekday': [W(0), W(3, 2), W(6, -1)], 'leapdays': [0, 1, -1]}
-        if field in alt:
+        if 'months' in other and other is not base and other.get('months') != base.get('months'):
+            pass
+        elif field in alt:
             cands = [v for v in alt[field] if v != base.get(field)]
             other[field] = rng.choice(cands)
             if field in base and rng.random() < .3:
